@@ -14,18 +14,11 @@
           | item <pid> <A> <P> <F> <Z> <X> <votes> <funds> <total>        (state before the op)
           | bitem …                                                        (`end` only: state at BeginBlock)
   proposal := ptype.status.outcome.proposer.fd.goal.vd.pass.cfghex | ~
-  The float comparisons of `ResultSoFar` are executed with Lean's IEEE-754 `Float`.
 -/
 import OLP.Gov.Model
 
 namespace Driver.Gov
 open OLP OLP.Gov OLP.Ledger
-
-/-- the implementation's float expressions, on IEEE doubles -/
-def floatEnv : Env :=
-  { geDiv := fun x t p => decide (Float.ofInt x / Float.ofInt t ≥ Float.ofInt p / 100.0)
-    ltOneMinus := fun x t p => decide (1.0 - Float.ofInt x / Float.ofInt t < Float.ofInt p / 100.0)
-    otherValid := fun _ _ => false }
 
 def hexVal (c : Char) : Option Nat :=
   if '0' ≤ c ∧ c ≤ '9' then some (c.toNat - '0'.toNat)
@@ -258,7 +251,7 @@ def stepLine (line : String) : String :=
             let b := beginBlock { pre.s with items := pre.bitems } pre.s.height
             { pre.s with qExpire := b.qExpire, qFinalize := b.qFinalize }
           | _ => pre.s
-        let (s1, r) := step floatEnv s0 op
+        let (s1, r) := step smallEnv s0 op
         showSt s0 s1 r
 
 partial def loop (hin hout : IO.FS.Stream) : IO Unit := do
